@@ -125,6 +125,9 @@ class H2Protocol:
             },
         )
 
+        # The decoder took its limit from the default settings above
+        self.connection.decoder.max_header_list_size = config.h2_max_header_list_size
+
         self.keep_alive_requests = 0
         self.send = send
         self.server = server
